@@ -117,15 +117,15 @@ type immRunner struct {
 	keyPen
 	violBuf
 	tagBuf
-	c                         immCache
-	chunks, items, nbytes, n  int
-	cross                     bool
+	c                        immCache
+	chunks, items, nbytes, n int
+	cross                    bool
 	// shadow state for the oracles
-	immune    map[string]bool   // accepted immune keys not since removed / cleared
-	payload   map[string][]byte // payload given when the key became resident
-	size      map[string]int
-	fifo      []string // single chunk: residents, oldest first
-	known     map[string]bool
+	immune  map[string]bool   // accepted immune keys not since removed / cleared
+	payload map[string][]byte // payload given when the key became resident
+	size    map[string]int
+	fifo    []string // single chunk: residents, oldest first
+	known   map[string]bool
 }
 
 func (immunityComp) NewRunner(begin string) Runner {
